@@ -730,10 +730,8 @@ type LockState struct {
 
 // Lock acquires l exclusively on behalf of the calling goroutine (a point).
 func (s *Sched) Lock(l *LockState) {
-	if l.Class == "" || l.Class == "?" {
-		l.Class = ClassOf(unsafe.Pointer(l))
-	}
-	s.Point(OpLock, l.Class, func() bool { return l.writer == nil && l.readers == 0 }, func(t *Thread) {
+	cls := classify(l)
+	s.Point(OpLock, cls, func() bool { return l.writer == nil && l.readers == 0 }, func(t *Thread) {
 		l.writer = t
 		s.noteOrder(t, l)
 		t.held = append(t.held, l)
@@ -745,9 +743,7 @@ func (s *Sched) TryLock(l *LockState) bool {
 	t := s.cur()
 	s.mu.Lock()
 	defer s.mu.Unlock()
-	if l.Class == "" || l.Class == "?" {
-		l.Class = ClassOf(unsafe.Pointer(l))
-	}
+	classify(l)
 	if l.writer != nil || l.readers != 0 {
 		return false
 	}
@@ -782,16 +778,14 @@ func (s *Sched) Unlock(l *LockState) {
 
 // RLock acquires l shared (a point).
 func (s *Sched) RLock(l *LockState) {
-	if l.Class == "" || l.Class == "?" {
-		l.Class = ClassOf(unsafe.Pointer(l))
-	}
-	s.Point(OpRLock, l.Class, func() bool { return l.writer == nil }, func(t *Thread) {
+	cls := classify(l)
+	s.Point(OpRLock, cls, func() bool { return l.writer == nil }, func(t *Thread) {
 		l.readers++
 		if l.rset == nil {
 			l.rset = map[*Thread]int{}
 		}
 		if l.rset[t] > 0 {
-			s.out.Recursive = append(s.out.Recursive, l.Class)
+			s.out.Recursive = append(s.out.Recursive, classOf(l))
 		}
 		l.rset[t]++
 		s.noteOrder(t, l)
@@ -804,9 +798,7 @@ func (s *Sched) TryRLock(l *LockState) bool {
 	t := s.cur()
 	s.mu.Lock()
 	defer s.mu.Unlock()
-	if l.Class == "" || l.Class == "?" {
-		l.Class = ClassOf(unsafe.Pointer(l))
-	}
+	classify(l)
 	if l.writer != nil {
 		return false
 	}
@@ -841,17 +833,18 @@ func (s *Sched) RUnlock(l *LockState) {
 }
 
 func (s *Sched) noteOrder(t *Thread, l *LockState) {
-	if l.Class == "?" {
+	lc := classOf(l)
+	if lc == "?" {
 		return
 	}
 	for _, h := range t.held {
-		if h != l && h.Class != "?" {
-			s.out.LockOrder[h.Class+"<"+l.Class] = true
+		if hc := classOf(h); h != l && hc != "?" {
+			s.out.LockOrder[hc+"<"+lc] = true
 		}
 	}
 	for _, h := range t.rheld {
-		if h != l && h.Class != "?" {
-			s.out.LockOrder[h.Class+"<"+l.Class] = true
+		if hc := classOf(h); h != l && hc != "?" {
+			s.out.LockOrder[hc+"<"+lc] = true
 		}
 	}
 }
@@ -863,10 +856,10 @@ func (s *Sched) HeldClasses() []string {
 	defer s.mu.Unlock()
 	var r []string
 	for _, h := range t.held {
-		r = append(r, h.Class)
+		r = append(r, classOf(h))
 	}
 	for _, h := range t.rheld {
-		r = append(r, "r:"+h.Class)
+		r = append(r, "r:"+classOf(h))
 	}
 	return r
 }
@@ -909,6 +902,26 @@ func SortedKeys[K cmp.Ordered, V any](m map[K]V) []K {
 // ("assoc.lock", "stream.lock", ...).  Unknown locks get class "?" and are left out
 // of the lock-order graph.
 var Namer func(p unsafe.Pointer) string
+
+// classMu guards LockState.Class: goroutines that have just been woken (channel hand-off,
+// goroutine start) run concurrently until their first scheduling point and may name the same
+// lock at the same time; an unguarded string assignment can be observed torn.
+var classMu sync.Mutex
+
+func classify(l *LockState) string {
+	classMu.Lock()
+	defer classMu.Unlock()
+	if l.Class == "" || l.Class == "?" {
+		l.Class = ClassOf(unsafe.Pointer(l))
+	}
+	return l.Class
+}
+
+func classOf(l *LockState) string {
+	classMu.Lock()
+	defer classMu.Unlock()
+	return l.Class
+}
 
 // ClassOf names the lock at address p.
 func ClassOf(p unsafe.Pointer) string {
